@@ -189,3 +189,13 @@ func decodedForEdit(m dhcpv6.DHCPv6, warm bool) dhcpv6.DHCPv6 {
 	}
 	return d
 }
+
+// PoisonAll applies every single-place edit to a decoded value at once and appends an option:
+// what a caller may do to a message it received. Used by histories of the form "edit an earlier
+// result, then decode again" (C05).
+func PoisonAll(m dhcpv6.DHCPv6) {
+	for _, e := range collectEdits(m) {
+		e.apply()
+	}
+	m.AddOption(&dhcpv6.OptionGeneric{OptionCode: 65001, OptionData: []byte("poison")})
+}
